@@ -460,6 +460,7 @@ func (fsm *FSM) decodeProtobuf(b *bufio.Reader) error {
 			if err != nil {
 				return err
 			}
+			fsm.restoredSessionExpiration()
 			log.Printf("storing RobustState as index %d\n", lastIncludedIndex)
 			fsm.lastSnapshotState[lastIncludedIndex] = state
 			continue
@@ -508,6 +509,7 @@ func (fsm *FSM) decodeJson(b *bufio.Reader) error {
 			if err != nil {
 				return err
 			}
+			fsm.restoredSessionExpiration()
 			log.Printf("storing RobustState as index %d\n", lastIncludedIndex)
 			fsm.lastSnapshotState[lastIncludedIndex] = state
 			continue
@@ -518,4 +520,21 @@ func (fsm *FSM) decodeJson(b *bufio.Reader) error {
 
 	log.Printf("Restored snapshot in %v", time.Since(start))
 	return nil
+}
+
+// restoredSessionExpiration makes the compaction horizon of Snapshot follow
+// the configuration which was just loaded from a snapshot: the Config message
+// which set it might have been compacted, in which case it will not be applied
+// (and sessionExpirationDur not be set) in this process.
+func (fsm *FSM) restoredSessionExpiration() {
+	exp := liveSessionExpiration()
+	fsm.sessionExpirationMu.Lock()
+	defer fsm.sessionExpirationMu.Unlock()
+	fsm.sessionExpirationDur = exp
+}
+
+func liveSessionExpiration() time.Duration {
+	ircServer.ConfigMu.RLock()
+	defer ircServer.ConfigMu.RUnlock()
+	return time.Duration(ircServer.Config.SessionExpiration)
 }
